@@ -1,9 +1,9 @@
 package main
 
 import (
-	mprops "github.com/magiconair/properties"
 	"bytes"
 	"fmt"
+	mprops "github.com/magiconair/properties"
 	"math/rand"
 	"reflect"
 	"strings"
